@@ -33,10 +33,11 @@ VARIABLES l, l0,
           sync,     \* the model and the real state are comparable in this state
           hid,      \* <<node, pod>>: the pod was re-nominated onto another GPU of the node it is being evicted from; the node
                     \* then counts it twice by design (releasing on the old GPU, nominated on the new one) under ONE entry
+          drifted,  \* a drift monitor was FALSE in an earlier state of this scenario (reported once)
           taint,    \* some property was FALSE in an earlier state of this scenario (drift monitors are then void)
           dmsg      \* first drift noticed by an event handler ("" = none)
 
-tvars == <<vars, l, l0, ri, oi, cps, rbOK, dcOK, pli, rem, rdone, sync, hid, taint, dmsg>>
+tvars == <<vars, l, l0, ri, oi, cps, rbOK, dcOK, pli, rem, rdone, sync, hid, drifted, taint, dmsg>>
 
 real  == Trace[ri].state
 rops  == IF Trace[oi].ev = "Scenario" THEN <<>> ELSE Trace[oi].ops
@@ -70,7 +71,7 @@ TraceInit ==
     /\ act = Lbl("Init", "", "", FALSE, <<>>, 0, "", TRUE)
     /\ cps = [x \in {0} |-> i]
     /\ rbOK = TRUE /\ dcOK = TRUE /\ pli = 0 /\ rem = <<>> /\ rdone = TRUE
-    /\ sync = TRUE /\ hid = {} /\ taint = FALSE /\ dmsg = ""
+    /\ sync = TRUE /\ hid = {} /\ drifted = FALSE /\ taint = FALSE /\ dmsg = ""
 
 Ev == Trace[l]
 \* (observed from the logged call and the logged state before it) Pipeline of a shared pod that the node still
@@ -80,7 +81,9 @@ MovesGpu(e) == /\ cfg.pods[e.p].kind = "frac" /\ real.nodes[e.node].pods[e.p].st
 StillHidden(h, st) == {x \in h : st.nodes[x[1]].pods[x[2]].st = "Pipelined"}
 Here(kind) == l <= Len(Trace) /\ Trace[l].ev = kind
 
-SetS(S) == pod' = S.pod /\ node' = S.node /\ job' = S.job /\ queue' = S.queue /\ ops' = S.ops
+\* (after a drift the model is not advanced any more: its operators may not even be defined on the diverged state)
+SetS(S) == IF drifted THEN UNCHANGED <<pod, node, job, queue, ops>>
+           ELSE pod' = S.pod /\ node' = S.node /\ job' = S.job /\ queue' = S.queue /\ ops' = S.ops
 Keep == UNCHANGED <<cfg, nfail, nstmt, bad, saved, hist, l0>>
 
 TraceCall ==
@@ -127,7 +130,7 @@ TraceCall ==
           [] e.op = "CommitEnd" ->
                /\ ops' = <<>> /\ phase' = "open" /\ ci' = 0 /\ conv' = FALSE /\ rdone' = TRUE
                /\ cps' = [x \in {0} |-> l]
-               /\ dmsg' = IF dmsg = "" /\ phase = "committing" /\ NextValid(ops, ci) # 0
+               /\ dmsg' = IF dmsg = "" /\ ~drifted /\ phase = "committing" /\ NextValid(ops, ci) # 0
                           THEN "Commit ended although the model has a valid operation left" ELSE dmsg
                /\ UNCHANGED <<pod, node, job, queue, emitted, plan, rbOK, dcOK, pli, rem>>
           [] OTHER ->
@@ -139,10 +142,10 @@ TraceCall ==
 TraceCache ==
   /\ Here("Cache")
   /\ LET e == Ev
-         i == NextValid(ops, ci)
+         i == IF drifted THEN 0 ELSE NextValid(ops, ci)
      IN
      /\ rem' = Append(rem, [c |-> e.c, p |-> e.p, ok |-> (e.ok = 1)])
-     /\ IF phase = "committing" /\ i # 0
+     /\ IF phase = "committing" /\ i # 0 /\ ~drifted
         THEN LET r == CommitOne(Cur, i, e.ok = 1) IN
              /\ SetS(r.S)
              /\ emitted' = Append(emitted, [c |-> CallOf(ops[i]).c, p |-> ops[i].p, ok |-> (e.ok = 1)])
@@ -195,23 +198,12 @@ C14_NodeBaseObs ==
 Healthy == /\ (StopOn # "C14") => (C13_RollbackObs /\ C13_DiscardObs /\ C13_CommitNetObs)
            /\ (StopOn # "C13") => (C14_JobObs /\ C14_QueueObs /\ C14_VectorObs /\ C14_NodeBaseObs)
 
-\* Reporting: the C13_ / C14_ predicates are evaluated by TLC in every state of every scenario; a FALSE one is
-\* reported with a VIOL line (CONSTRAINT Report; this avoids one counterexample reconstruction per violating
-\* scenario, of which a single genuine defect produces hundreds) and the scenario is not continued past it.
-Viol(name, ok) == ok \/ PrintT(<<"VIOL", name, l0, l>>)
-Report ==
-  /\ Viol("C13_RollbackObs", C13_RollbackObs) /\ Viol("C13_DiscardObs", C13_DiscardObs) /\ Viol("C13_CommitNetObs", C13_CommitNetObs)
-  /\ Viol("C14_JobObs", C14_JobObs) /\ Viol("C14_QueueObs", C14_QueueObs) /\ Viol("C14_VectorObs", C14_VectorObs)
-  /\ Viol("C14_NodeBaseObs", C14_NodeBaseObs)
-AllC == C13_RollbackObs /\ C13_DiscardObs /\ C13_CommitNetObs /\ C14_JobObs /\ C14_QueueObs /\ C14_VectorObs /\ C14_NodeBaseObs
-TraceNext == Healthy /\ (TraceCall \/ TraceCache \/ TraceH) /\ taint' = (taint \/ ~AllC)
-TraceSpec == TraceInit /\ [][TraceNext]_tvars
-
 (***************************************************************************)
 (* Drift monitors: model prediction vs real                                *)
 (***************************************************************************)
 \* after a property violation (of either family) the real code has left the specified behaviour: the model's
 \* predictions are then not comparable any more (no drift verdict for the rest of the scenario)
+AllC == C13_RollbackObs /\ C13_DiscardObs /\ C13_CommitNetObs /\ C14_JobObs /\ C14_QueueObs /\ C14_VectorObs /\ C14_NodeBaseObs
 Clean == sync /\ ~taint /\ AllC
 D_Pods   == Clean => RPods(real) = pod
 D_Nodes  == Clean => RNodes(real) = node
@@ -234,4 +226,23 @@ D_Init   == (l = l0 + 1) =>
               /\ node = [n \in Nodes |-> FoldInit(n, EmptyNode(n), {p \in Pods : cfg.pods[p].node = n /\ ActiveUsed(cfg.pods[p].st)})]
               /\ pod = InitPod
 D_Shape  == (l <= Len(Trace) /\ Trace[l].ev # "Scenario") => Trace[l].ev \in {"Call", "Cache", "H"}
+\* Reporting: the C13_ / C14_ predicates and the D_ monitors are evaluated by TLC in every state of every scenario;
+\* a FALSE one is reported with a VIOL / DRIFT line (CONSTRAINT Report; this avoids one counterexample
+\* reconstruction per violating scenario, of which a single genuine defect produces hundreds). A scenario is not
+\* continued past a property violation; after a drift it continues (the properties are pure observations) but
+\* the monitors are silent.
+Viol(name, ok) == ok \/ PrintT(<<"VIOL", name, l0, l>>)
+Drift(name, ok) == ok \/ PrintT(<<"DRIFT", name, l0, l, dmsg>>)
+AllD == D_Pods /\ D_Nodes /\ D_Jobs /\ D_Queues /\ D_Ops /\ D_Msg /\ D_NoErr /\ D_CommitErr /\ D_Init /\ D_Shape
+Report ==
+  /\ Viol("C13_RollbackObs", C13_RollbackObs) /\ Viol("C13_DiscardObs", C13_DiscardObs) /\ Viol("C13_CommitNetObs", C13_CommitNetObs)
+  /\ Viol("C14_JobObs", C14_JobObs) /\ Viol("C14_QueueObs", C14_QueueObs) /\ Viol("C14_VectorObs", C14_VectorObs)
+  /\ Viol("C14_NodeBaseObs", C14_NodeBaseObs)
+  /\ drifted \/ ( /\ Drift("D_Pods", D_Pods) /\ Drift("D_Nodes", D_Nodes) /\ Drift("D_Jobs", D_Jobs) /\ Drift("D_Queues", D_Queues)
+                  /\ Drift("D_Ops", D_Ops) /\ Drift("D_Msg", D_Msg) /\ Drift("D_NoErr", D_NoErr) /\ Drift("D_CommitErr", D_CommitErr)
+                  /\ Drift("D_Init", D_Init) /\ Drift("D_Shape", D_Shape) )
+
+TraceNext == /\ Healthy /\ (TraceCall \/ TraceCache \/ TraceH)
+             /\ taint' = (taint \/ ~AllC) /\ drifted' = (drifted \/ ~AllD)
+TraceSpec == TraceInit /\ [][TraceNext]_tvars
 =============================================================================
